@@ -1116,3 +1116,49 @@ def rule_binary_number_cancellation(rep: Report, repo: Repo):
     else:
         rep.ok(R, f"{CLS}._cancel_binary_operator_numbers sets N_op to 0 exactly for the spin / fermion operators present in a term",
                f"{n_cases} model cases (operator sets x power patterns); infinite-order classes {sorted(inf)}", loc(f))
+
+
+# ---------------------------------------------------------------------------
+# (vii) stored coefficients hold placeholders, not NumberOperator objects
+# ---------------------------------------------------------------------------
+
+
+def rule_placeholder_tests(rep: Report, repo: Repo):
+    """Inside a NumberOrderedForm the coefficients of `args[1]` / `terms` are written over placeholder symbols
+    (`_number_operator_placeholders`); NumberOperator objects appear only after `xreplace(self._placeholder_to_number_operator)`.
+    A test `coeff.has(NumberOperator)` / `coeff.atoms(NumberOperator)` on a stored coefficient is therefore always negative: whatever it
+    guards ("the coefficient does not depend on N, so ...") is taken for every coefficient."""
+    R = "E10.placeholders"
+    cls = repo.find(CLS, R)
+    n_methods = n_tests = 0
+    for fn in [m for m in cls.body if isinstance(m, ast.FunctionDef)]:
+        n_methods += 1
+        stored = set()
+        for n in ast.walk(fn):
+            src = None
+            if isinstance(n, (ast.For, ast.comprehension)) and isinstance(n.target, ast.Tuple) and len(n.target.elts) == 2:
+                src, tgt = n.iter, n.target
+            elif isinstance(n, ast.Assign) and len(n.targets) == 1:
+                tgt = n.targets[0]
+                while isinstance(tgt, (ast.Tuple, ast.List)) and len(tgt.elts) == 1:
+                    tgt = tgt.elts[0]
+                if isinstance(tgt, ast.Tuple) and len(tgt.elts) == 2:
+                    src = n.value
+            if src is not None and any(t in norm(src) for t in ("self.args[1]", "self.terms")) and isinstance(tgt.elts[1], ast.Name):
+                stored.add(tgt.elts[1].id)
+        converted = {n.targets[0].id for n in ast.walk(fn) if isinstance(n, ast.Assign) and len(n.targets) == 1 and isinstance(n.targets[0], ast.Name)
+                     and "_placeholder_to_number_operator" in norm(n.value)}
+        for c in ast.walk(fn):
+            if isinstance(c, ast.Call) and isinstance(c.func, ast.Attribute) and c.func.attr in ("has", "atoms", "find") \
+                    and isinstance(c.func.value, ast.Name) and c.func.value.id in stored:
+                n_tests += 1
+                args = [norm(a) for a in c.args]
+                inst = f"{CLS}.{fn.name} `{norm(c)[:60]}` on a stored coefficient"
+                if "NumberOperator" in args and c.func.value.id not in converted:
+                    rep.fail(R, f"{inst} looks for NumberOperator objects", "stored coefficients are written over placeholder symbols "
+                             "(self._number_operator_placeholders): the test never finds anything, so the branch it guards is taken for "
+                             "number-dependent coefficients too", repo.loc(MOD, c))
+                else:
+                    rep.ok(R, inst, "tests the placeholders (or a coefficient converted back to NumberOperator objects)", repo.loc(MOD, c))
+    rep.floor(R, "methods of NumberOrderedForm inspected", n_methods, 20)
+    rep.ok(R, f"{CLS}: dependence tests on stored coefficients", f"{n_tests} tests in {n_methods} methods", repo.rel(MOD))
